@@ -3,8 +3,8 @@
 (* Proofs/C02_Decision.v as its per-period decision block and the arrays of the regenerated solve as value arrays.   *)
 From Coq Require Import Lqa Lia Permutation.
 From LCM Require Import Base.Prelude Base.Arr Base.ArrOps Model.RandomChoice Gen.Simulate.
-From LCM Require Import Spec.Lang Spec.Bellman Proofs.ArrLemmas Proofs.C14_Refine Proofs.C14_OnLayout Proofs.C04_SimulateLoop
-                        Proofs.C01_Compose Proofs.C01_MaxCompose Proofs.C01_Period Proofs.C01_Solve Proofs.C02_Decision.
+From LCM Require Import Spec.Lang Spec.Bellman Proofs.ArrLemmas Proofs.Spec_Algebra Proofs.C14_Refine Proofs.C14_OnLayout Proofs.C04_SimulateLoop
+                        Proofs.C01_Compose Proofs.C01_MaxCompose Proofs.C01_Period Proofs.C01_Agents Proofs.C01_Solve Proofs.C02_Decision.
 Local Open Scope nat_scope.
 
 Section SimulateAll.
@@ -127,6 +127,31 @@ Proof.
     rewrite (uf_code_arr_of_solved m p n dch cch Hnames t Ht').
     exact (decision_of_the_code_is_optimal m p t (next_table m p n dch cch t) dst dch cst cch Hperm Hnd Hnds Hvalid nag _ _ HlD HlC Hrows Hne
              (fun i' dc cc Hi' => Heval t i' dc cc Ht' Hi') i Hi).
+Qed.
+
+(* C06 for this loop: for an agent ON the grid the recorded value is the entry of the solved array of that period at the
+   agent's position -- both are the specification's value of that state with the same next value function *)
+Theorem on_grid_row_value_is_the_solved_entry t i ds cs : t < n -> i < nag ->
+  in_bounds (sizes dst) ds -> in_bounds (sizes cst) cs ->
+  at_row (fst (states_at t)) i = map snd (env_of_idx dst ds) -> at_row (snd (states_at t)) i = map snd (env_of_idx cst cs) ->
+  (* the model evaluates at every grid point of period t (what the solved entry needs) *)
+  (S t < n -> forall ds' dc cs' cc,
+     in_bounds (sizes dst) ds' -> in_bounds (sizes dch) dc -> in_bounds (sizes cst) cs' -> in_bounds (sizes cch) cc ->
+     evaluates_at m p (next_table m p n dch cch t) (spec_env t dst dch cst cch ds' dc cs' cc)) ->
+  (S t = n -> forall ds' dc cs' cc,
+     in_bounds (sizes dst) ds' -> in_bounds (sizes dch) dc -> in_bounds (sizes cst) cs' -> in_bounds (sizes cch) cc ->
+     exists u, eval_fun (depth m) m p (spec_env t dst dch cst cch ds' dc cs' cc) "utility" = Some u) ->
+  veq (row_value t i) (get VUndef (nth t (code_solve m p n dch cch) (scalar VUndef)) (ds ++ cs)).
+Proof.
+  intros Ht Hi Hds Hcs ED EC Hev' Hlast'.
+  destruct (every_simulated_row_is_a_feasible_maximiser t i Ht Hi) as [HV _]. cbv zeta in HV.
+  destruct (row_unfold t i Ht Hi) as (Es & _ & _). cbv zeta in Es. rewrite Es in HV.
+  pose proof (code_solve_satisfies_the_bellman_equation m p n dch cch Hperm Hnd Hnds Hvalid Hnames t ds cs Ht Hev' Hlast' Hds Hcs) as HS.
+  assert (L : forall vars idx, in_bounds (sizes vars) idx -> length idx = length vars).
+  { intros vars idx H. rewrite (in_bounds_length _ _ H). unfold sizes. now rewrite map_length. }
+  assert (Esig : agent_state dst cst (fst (states_at t)) (snd (states_at t)) i = (env_of_idx dst ds ++ env_of_idx cst cs)%list).
+  { unfold agent_state. rewrite ED, EC, !combine_names_vals by (now apply L). reflexivity. }
+  rewrite Esig in HV. eapply veq_trans; [exact HV|]. apply veq_sym. exact HS.
 Qed.
 
 (* the trajectory: period 0 starts from the initial states, and the states of period t+1 are the law of motion applied to
